@@ -118,15 +118,19 @@ theorem times_step (fuel n ne : Nat) (fi : FilesInfo) (slots : List (Slot Nat))
   have hbb : bitsToBytes (slots.map Slot.isVal).length ≤ slots.length := by simp [bitsToBytes]; omega
   generalize hsz : ((slots.map Slot.isVal).filter id).length * 8 + 2 +
         (if (slots.map Slot.isVal).all id then 0 else bitsToBytes (slots.map Slot.isVal).length) = size at hbody
-  have hsize : size < 2 ^ 64 := by
-    have : (2:Nat) ^ 32 * 16 < 2 ^ 64 := by decide
+  have hsize63 : size < 2 ^ 63 := by
+    have : (2:Nat) ^ 32 * 16 < 2 ^ 63 := by decide
     subst hsz; split <;> omega
+  have hsize : size < 2 ^ 64 := by
+    have : (2:Nat) ^ 63 < 2 ^ 64 := by decide
+    omega
   unfold timesBlock
   simp only [payload_eq_flatMap, if_true, hsz, List.append_assoc, List.cons_append, List.nil_append]
   rw [readFileProps]
   rw [P.bind_ok (read1_cons _ _)]
   simp only [show (some 0x14 : Option Nat) ≠ some 0 by decide, if_false]
   rw [P.bind_ok (pNumber_write size hsize _)]
+  rw [if_neg (show ¬ size ≥ 2 ^ 63 by omega)]
   simp only [show (some 0x14 : Option Nat) ≠ some 0x19 by decide, if_false]
   have hb : (writeBools (slots.map Slot.isVal) true ++ (0 :: (payload 8 slots ++ rest))) =
       (writeBools (slots.map Slot.isVal) true ++ [0x00] ++ payload 8 slots) ++ rest := by simp
@@ -215,15 +219,19 @@ theorem attrs_step (fuel n ne : Nat) (fi : FilesInfo) (slots : List (Slot Nat))
   generalize hsz : ((slots.map Slot.isVal).filter id).length * 4 + 2 +
         (if ((slots.map Slot.isVal).filter id).length ≠ (slots.map Slot.isVal).length
          then bitsToBytes (slots.map Slot.isVal).length else 0) = size at hbody
-  have hsize : size < 2 ^ 64 := by
-    have : (2:Nat) ^ 32 * 16 < 2 ^ 64 := by decide
+  have hsize63 : size < 2 ^ 63 := by
+    have : (2:Nat) ^ 32 * 16 < 2 ^ 63 := by decide
     subst hsz; split <;> omega
+  have hsize : size < 2 ^ 64 := by
+    have : (2:Nat) ^ 63 < 2 ^ 64 := by decide
+    omega
   unfold attrsBlock
   simp only [payload_eq_flatMap, if_true, hsz, List.append_assoc, List.cons_append, List.nil_append]
   rw [readFileProps]
   rw [P.bind_ok (read1_cons _ _)]
   simp only [show (some 0x15 : Option Nat) ≠ some 0 by decide, if_false]
   rw [P.bind_ok (pNumber_write size hsize _)]
+  rw [if_neg (show ¬ size ≥ 2 ^ 63 by omega)]
   simp only [show (some 0x15 : Option Nat) ≠ some 0x19 by decide, if_false]
   have hb : (writeBools (slots.map Slot.isVal) true ++ (0 :: (payload 4 slots ++ rest))) =
       (writeBools (slots.map Slot.isVal) true ++ [0x00] ++ payload 4 slots) ++ rest := by simp
